@@ -9,7 +9,8 @@ adv=(" Assume the property is being checked by a thorough machine: the library i
      "signal states, several errno values of injected failures, millions of random operand pairs compared across backends, hooks that report internal loop "
      "positions, curve results just below the field prime with every limb pattern, MAC keys whose precomputed powers sit at limb boundaries, forged signatures "
      "built consistently around altered commitments or with S + k*L for every k, stream counters just before every byte carry, in-place calls on messages up to 1 MiB, "
-     "every optional (NULL-able) output pointer form, and single calls producing more than 2^38 bytes. Choose a trigger that such a checker is UNLIKELY to generate: a rare "
+     "every optional (NULL-able) output pointer form, single calls producing more than 2^38 bytes, password hashing over more than 4 GiB in every backend, "
+     "hash strings produced by other implementations (long salts/tags), allocation-size products that wrap to mappable sizes, and documented macros expanded with compound expressions. Choose a trigger that such a checker is UNLIKELY to generate: a rare "
      "conjunction of conditions, a very large or unusual parameter value, a rarely used entry point, option or state, a long-running or cumulative condition.")
 for k in sys.argv[1:]:
     prevs=[json.load(open(f))['needs_to_manifest'] for f in sorted(glob.glob(f'/verif/seeded/{k}-*/meta.json'))]
